@@ -33,7 +33,11 @@ def run(tier):
                       "chains up to depth 31, which are loaded by the real loader under a 5 s deadline. The public skrifa API is "
                       "driven over every corpus font and over truncated / damaged copies with non-finite and extreme sizes, "
                       "coordinate vectors of any length, every engine x target, too-small and misaligned scratch memory and "
-                      "out-of-range glyph ids. TotalTrace.tla accepts only value / absence / named-error observations.")
+                      "out-of-range glyph ids. MemCarve.tla proves that carving aligned slices out of a buffer at any misalignment stays in bounds and that the "
+                      "advertised size suffices (and rejects a badly ordered layout); its (misalignment, length) family is replayed on "
+                      "hinted and unhinted draws with caller memory. Chains of 10 .. 200000 nested PaintGlyph tables / composite glyphs "
+                      "are painted / loaded in child processes (a crash of the child is a violation). TotalTrace.tla accepts only "
+                      "value / absence / named-error observations.")
     ck.assumptions = ["outcome-class agreement with the models is reported (outcome_differs_from_model) but a difference alone is "
                       "not a violation of totality", "IFT client totality is exercised by C18/C19 (malformed patches, failing "
                       "decoder) and not repeated here", "CFF charstring nesting and paint-graph guards are exercised through the "
@@ -70,6 +74,24 @@ def run(tier):
     res = vlib.run_harness("fv-total", ["c02", "graphs", "--cases", graphs, "--out", t2], timeout=3000)
     ck.add_harness("replay:graphs", res, traces=False)
     validate(ck, wd, "graphs", t2)
+    # scratch memory (MemCarve.tla) and chains far beyond the depth limits (child processes)
+    r = vlib.run_tlc(wd, "MemCarve", cfg="MemCarve.cfg", workers=4, timeout=900)
+    ck.add_tlc("tlc:MemCarve", r)
+    if not r.ok:
+        ck.spec_error("MemCarve", r)
+    rb = vlib.run_tlc(wd, "MemCarve", cfg="MemCarve_bad.cfg", workers=2, timeout=600, out_name="memcarve_bad.out")
+    if rb.ok:
+        raise vlib.ToolError("MemCarve: the badly ordered layout was not rejected (AdvertisedSuffices would be vacuous)")
+    os.remove(rb.out)
+    t4 = os.path.join(wd, "mem.ndjson")
+    res = vlib.run_harness("fv-total", ["c02", "mem", "--family", r.out, "--out", t4], timeout=3000)
+    ck.add_harness("replay:mem", res, traces=False)
+    os.remove(r.out)
+    validate(ck, wd, "mem", t4)
+    t5 = os.path.join(wd, "deep.ndjson")
+    res = vlib.run_harness("fv-total", ["c02", "deep", "--out", t5], timeout=3000)
+    ck.add_harness("deep-chains", res, traces=False)
+    validate(ck, wd, "deep", t5)
     for i in range(1 if tier == "quick" else 8):
         t3 = os.path.join(wd, "drive_%d.ndjson" % i)
         res = vlib.run_harness("fv-total", ["c02", "corpus", "--seed", vlib.seed() + i, "--mutations", 12 if tier == "quick" else 60, "--out", t3], timeout=3400)
